@@ -63,15 +63,15 @@ fn colopt_sexp(o: &ColumnOptionDef) -> Option<String> {
         ColumnOption::Null => "null".into(),
         ColumnOption::NotNull => "notnull".into(),
         ColumnOption::Default(e) => format!("(default {})", expr_sexp(e)?),
-        ColumnOption::Unique { is_primary: true, characteristics: None } => "primary".into(),
-        ColumnOption::Unique { is_primary: false, characteristics: None } => "unique".into(),
+        ColumnOption::Unique { is_primary: true, characteristics: None, .. } => "primary".into(),
+        ColumnOption::Unique { is_primary: false, characteristics: None, .. } => "unique".into(),
         ColumnOption::Check(e) => format!("(check {})", expr_sexp(e)?),
         ColumnOption::Comment(s) => format!("(comment {})", hx(s)),
         ColumnOption::DialectSpecific(v) => match v.as_slice() {
             [Token::Word(w)] => format!("(dialect {})", w.value),
             _ => return None,
         },
-        ColumnOption::ForeignKey { foreign_table, referred_columns, on_delete: None, on_update: None, characteristics: None } => {
+        ColumnOption::ForeignKey { foreign_table, referred_columns, on_delete: None, on_update: None, characteristics: None, .. } => {
             format!("(references {} (cols{}))", name_sexp(foreign_table), ids_sexp(referred_columns))
         }
         _ => return None,
@@ -92,17 +92,17 @@ fn coldef_sexp(c: &ColumnDef) -> Option<String> {
 
 fn alter_op_sexp(op: &AlterTableOperation) -> Option<String> {
     Some(match op {
-        AlterTableOperation::AddColumn { column_keyword, if_not_exists, column_def, column_position: None } => {
+        AlterTableOperation::AddColumn { column_keyword, if_not_exists, column_def, column_position: None, .. } => {
             format!("(add {} {} {})", b(*column_keyword), b(*if_not_exists), coldef_sexp(column_def)?)
         }
-        AlterTableOperation::DropColumn { column_name, if_exists, cascade } => format!("(dropcol {} {} {})", b(*if_exists), id_sexp(column_name), b(*cascade)),
-        AlterTableOperation::RenameColumn { old_column_name, new_column_name } => format!("(renamecol {} {})", id_sexp(old_column_name), id_sexp(new_column_name)),
-        AlterTableOperation::RenameTable { table_name } => format!("(renametable {})", name_sexp(table_name)),
-        AlterTableOperation::AlterColumn { column_name, op } => {
+        AlterTableOperation::DropColumn { column_name, if_exists, cascade, .. } => format!("(dropcol {} {} {})", b(*if_exists), id_sexp(column_name), b(*cascade)),
+        AlterTableOperation::RenameColumn { old_column_name, new_column_name, .. } => format!("(renamecol {} {})", id_sexp(old_column_name), id_sexp(new_column_name)),
+        AlterTableOperation::RenameTable { table_name, .. } => format!("(renametable {})", name_sexp(table_name)),
+        AlterTableOperation::AlterColumn { column_name, op, .. } => {
             let o = match op {
                 AlterColumnOperation::SetNotNull => "setnotnull".to_string(),
                 AlterColumnOperation::DropNotNull => "dropnotnull".to_string(),
-                AlterColumnOperation::SetDefault { value } => format!("(setdefault {})", expr_sexp(value)?),
+                AlterColumnOperation::SetDefault { value, .. } => format!("(setdefault {})", expr_sexp(value)?),
                 AlterColumnOperation::DropDefault => "dropdefault".to_string(),
                 _ => return None,
             };
@@ -115,7 +115,7 @@ fn alter_op_sexp(op: &AlterTableOperation) -> Option<String> {
 /// None = outside the modelled fragment
 pub fn stmt_sexp(s: &Statement) -> Option<String> {
     match s {
-        Statement::CreateView { or_replace, materialized, name, columns, query, options, cluster_by, comment, with_no_schema_binding, if_not_exists, temporary, to } => {
+        Statement::CreateView { or_replace, materialized, name, columns, query, options, cluster_by, comment, with_no_schema_binding, if_not_exists, temporary, to, .. } => {
             if !matches!(options, CreateTableOptions::None) || !cluster_by.is_empty() || comment.is_some() || *with_no_schema_binding || to.is_some() {
                 return None;
             }
@@ -129,7 +129,7 @@ pub fn stmt_sexp(s: &Statement) -> Option<String> {
             let q = crate::dml::stmt_sexp(&Statement::Query(query.clone()))?;
             Some(format!("(createview {} {} {} {} {} (cols{cols}) {q})", b(*or_replace), b(*materialized), b(*temporary), b(*if_not_exists), name_sexp(name)))
         }
-        Statement::CreateIndex(CreateIndex { name, table_name, using, columns, unique, concurrently, if_not_exists, include, nulls_distinct, with, predicate }) => {
+        Statement::CreateIndex(CreateIndex { name, table_name, using, columns, unique, concurrently, if_not_exists, include, nulls_distinct, with, predicate, .. }) => {
             if !with.is_empty() {
                 return None;
             }
@@ -150,7 +150,7 @@ pub fn stmt_sexp(s: &Statement) -> Option<String> {
                 opt_expr(predicate)?
             ))
         }
-        Statement::AlterTable { name, if_exists, only, operations, location: None, on_cluster: None } => {
+        Statement::AlterTable { name, if_exists, only, operations, location: None, on_cluster: None, .. } => {
             let mut ops = String::new();
             for o in operations {
                 ops.push(' ');
@@ -158,7 +158,7 @@ pub fn stmt_sexp(s: &Statement) -> Option<String> {
             }
             Some(format!("(altertable {} {} {} (ops{ops}))", b(*if_exists), b(*only), name_sexp(name)))
         }
-        Statement::Truncate { table_names, partitions: None, table, only, identity, cascade, on_cluster: None } => Some(format!(
+        Statement::Truncate { table_names, partitions: None, table, only, identity, cascade, on_cluster: None, .. } => Some(format!(
             "(truncate {} {} (names{}) {} {})",
             b(*table),
             b(*only),
@@ -166,7 +166,7 @@ pub fn stmt_sexp(s: &Statement) -> Option<String> {
             match identity { None => "none", Some(TruncateIdentityOption::Restart) => "restart", Some(TruncateIdentityOption::Continue) => "continue" },
             match cascade { None => "none", Some(TruncateCascadeOption::Cascade) => "cascade", Some(TruncateCascadeOption::Restrict) => "restrict" }
         )),
-        Statement::Drop { object_type, if_exists, names, cascade, restrict, purge, temporary: false } if *object_type != ObjectType::Table => Some(format!(
+        Statement::Drop { object_type, if_exists, names, cascade, restrict, purge, temporary: false, .. } if *object_type != ObjectType::Table => Some(format!(
             "(dropobj {object_type} {} (names{}) {} {} {})",
             b(*if_exists),
             names_sexp(names.iter()),
